@@ -1,6 +1,8 @@
 package main
 
 import (
+	"path/filepath"
+	"os/exec"
 	"bufio"
 	"encoding/json"
 	"log/slog"
@@ -434,6 +436,11 @@ func timeDrv(args []string) {
 			runHistory(w, rng, at(ws+3*dayMs), base, mk(append([]int64{ws, ws + 1}, rest...)...), "boundary")
 		}
 	}
+	// the application: displayrtcm3 <file> <date> with every date of the week of the recording, on machines in
+	// several time zones (C17: "displaying a recorded file with any date of that week")
+	if bin := os.Getenv("VERIF_DISPLAY_BIN"); bin != "" && mode != "c06" {
+		runAppHistories(w, rng, bin)
+	}
 	// direction B: behaviours simulated by TLC from TimeTrack_MC, concretised
 	if len(args) > 2 {
 		f, err := os.Open(args[2])
@@ -461,6 +468,84 @@ func timeDrv(args []string) {
 				}
 			}
 			runHistory(w, rng, T, base, obs, "tlc")
+		}
+	}
+}
+
+// runAppHistories: a recorded file with observations of all four constellations spread over one week, displayed by
+// the built displayrtcm3 binary with each of the seven dates of that week (date only, and RFC 3339 instants),
+// the process's local time zone set through TZ.  The times are read back from the display.
+func runAppHistories(w *tr.Writer, rng *rand.Rand, bin string) {
+	dir, err := os.MkdirTemp("", "c17app")
+	if err != nil {
+		panic(err)
+	}
+	defer os.RemoveAll(dir)
+	zonesTZ := []string{"UTC", "Asia/Kolkata", "Europe/Paris", "America/New_York", "Pacific/Kiritimati", "Australia/Adelaide"}
+	if !tr.Thorough() {
+		zonesTZ = []string{"UTC", "Asia/Kolkata", "America/New_York", zonesTZ[3+int(tr.Seed())%3]}
+	}
+	sunday := sundays[int(tr.Seed())%len(sundays)]
+	base := sunday.AddDate(0, 0, -7)
+	// observations inside the week of `sunday` for every constellation: Sunday 10:00, Tuesday 03:00, Thursday 12:00:01, Saturday 19:00
+	var obs []obsSpec
+	for _, off := range []int64{10 * 3600000, 2*dayMs + 3*3600000, 4*dayMs + 12*3600000 + 1000, 6*dayMs + 19*3600000} {
+		for _, c := range conNames {
+			obs = append(obs, obsSpec{c: c, mt: conTypes[c][rng.Intn(2)], u: weekMs + off + int64(rng.Intn(1000))})
+		}
+	}
+	file := filepath.Join(dir, "week.rtcm")
+	var data []byte
+	for _, o := range obs {
+		data = append(data, msmFrame(rng, o.mt, tsOf(o.c, o.u))...)
+	}
+	if err := os.WriteFile(file, data, 0o600); err != nil {
+		panic(err)
+	}
+	for d := 0; d < 7; d++ {
+		day := sunday.AddDate(0, 0, d)
+		args := []struct {
+			arg string
+			T   time.Time
+		}{{day.Format("2006-01-02"), day}} // documented: a date means that day, UTC
+		if d%3 == 0 {
+			t := day.Add(13*time.Hour + 30*time.Minute)
+			args = append(args, struct {
+				arg string
+				T   time.Time
+			}{t.In(time.FixedZone("", 5*3600+1800)).Format(time.RFC3339), t})
+		}
+		for _, a := range args {
+			for _, tz := range zonesTZ {
+				cmd := exec.Command(bin, file, a.arg)
+				cmd.Env = append(os.Environ(), "TZ="+tz)
+				cmd.Dir = dir
+				out, rerr := cmd.Output()
+				p := pair(a.T.Sub(base).Milliseconds())
+				w.Emit(tEvNew{"new", [2]int64{p[0], p[1]}, "TZ=" + tz + " arg=" + a.arg, "app", "app"})
+				var sent, sow []string
+				for _, line := range strings.Split(string(out), "\n") {
+					if strings.HasPrefix(line, "Time ") {
+						sent = append(sent, line)
+					} else if strings.HasPrefix(line, "Start of ") {
+						sow = append(sow, line)
+					}
+				}
+				for i, o := range obs {
+					ev := tEvObs{Ev: "obs", C: o.c, MT: o.mt, TS: tsOf(o.c, o.u), U: pair(o.u), Sent: []int64{}, Sow: []int64{}}
+					if rerr != nil {
+						ev.Err = "displayrtcm3: " + rerr.Error()
+					}
+					if i < len(sent) && i < len(sow) {
+						ev.Raw, ev.RawW = sent[i], sow[i]
+						ev.Sent, _ = parseShown(sent[i], "Time ", base)
+						ev.Sow, _ = parseShown(sow[i], " week ", base)
+					} else if ev.Err == "" {
+						ev.Err = "no time displayed for this message"
+					}
+					w.Emit(ev)
+				}
+			}
 		}
 	}
 }
